@@ -331,3 +331,44 @@ def fd_jacobian(fun, env, names):
         a = fun(shift_env(env, nme, FD_H1)); b = fun(shift_env(env, nme, -FD_H1))
         cols.append([(x - y) / (2 * FD_H1) for x, y in zip(a, b)])
     return [[cols[j][i] for j in range(len(names))] for i in range(len(cols[0]) if cols else 0)]
+
+
+BIG_FORMS = ["ndarray_int64", "ndarray_int64", "ndarray_int32", "tuple_npint64", "list_int"]
+
+
+def dtype_probe(model, names, states, params, env, xform, who=""):
+    """Populations of 1e4..1e6 handed to the evaluators `names` with an integer dtype and, the same point, as Python
+    floats.  Absolute accuracy is not judged here (float64 cancellation at this scale is not a defect); the two answers
+    for ONE point must agree, and only a gross difference (1e-3 relative, entry by entry, and 1e-9 of the largest
+    entry) is reported: fixed-width integer wrap-around changes values by orders of magnitude.
+    Returns (violations, tags); sets model.parameters to those of `env`."""
+    import numpy as np
+    viol, tags = [], []
+    vals = [int(env[s_]) for s_ in states]
+    xi = {"ndarray_int64": lambda: np.array(vals, dtype=np.int64), "ndarray_int32": lambda: np.array(vals, dtype=np.int32),
+          "tuple_npint64": lambda: tuple(np.int64(v) for v in vals), "list_int": lambda: list(vals)}[xform]()
+    xf = [float(v) for v in vals]
+    t = float(env["t"])
+    try:
+        model.parameters = fl(env, params)
+    except Exception:
+        return viol, ["big:parameters-not-settable"]
+    tags.append("big:" + xform)
+    for name in names:
+        try:
+            ri = np.array(getattr(model, name)(xi, t), float); rf = np.array(getattr(model, name)(xf, t), float)
+        except Exception as exc:
+            viol.append({"what": who + "%s raised %s at populations of 1e4..1e6 (x as %s): %s" % (name, type(exc).__name__, xform, str(exc)[:150]),
+                         "signature": "evaluator-raise:%s:big:%s" % (type(exc).__name__, xform), "detail": ""})
+            return viol, tags
+        if ri.shape != rf.shape or not (np.all(np.isfinite(ri)) and np.all(np.isfinite(rf))):
+            tags.append("big:non-finite")
+            continue
+        top = max(float(np.max(np.abs(rf))) if rf.size else 0.0, float(np.max(np.abs(ri))) if ri.size else 0.0)
+        bad = np.abs(ri - rf) > 1e-3 * np.maximum(np.abs(ri), np.abs(rf)) + 1e-9 * top
+        if np.any(bad):
+            viol.append({"what": who + "%s(x,t) gives different values for one point: x as %s against the same numbers as Python floats "
+                                 "(fixed-width integer wrap-around inside the evaluator)" % (name, xform),
+                         "signature": "integer-dtype-state:%s" % name, "evaluator": name,
+                         "detail": "as %s: %s ; as floats: %s at %s" % (xform, ri.tolist(), rf.tolist(), {k: str(v) for k, v in env.items()})})
+    return viol, tags
